@@ -238,7 +238,7 @@ func (in *inst) Apply(op string) *mc.Fail {
 		in.oracle(false) // fills diffsOf for the next step; nothing is reported for a prefix
 		return nil
 	}
-	if run.Expired() || time.Now().After(scenarioDeadline) {
+	if run.Expired() || (!scenarioDeadline.IsZero() && time.Now().After(scenarioDeadline)) {
 		// time budget (shared evenly between the scenarios) used up: finish the level without
 		// judging; the result is reported as not exhaustive
 		atomic.StoreInt32(&expired, 1)
@@ -429,24 +429,31 @@ func (in *inst) undoneClass(k, n int, tf string) string {
 	return kind
 }
 
-// span names the structural boundaries (election, voting start, end of the election period:
-// the places where the committee swaps whole maps) crossed by blocks from..to.
+// span tells whether blocks from..to cross a committee change, the place where the committee
+// swaps whole maps (candidates, members): "election" or "-".
 func (in *inst) span(from, to int) string {
-	cl := map[string]bool{}
 	for h := from; h <= to; h++ {
 		for _, c := range in.classesOf(h, true) {
-			cl[c] = true
+			if c == "election" {
+				return "election"
+			}
 		}
 	}
-	if len(cl) == 0 {
-		return "-"
+	return "-"
+}
+
+// sigOf builds the signature of a state difference. When the undone span crosses a committee
+// change, the oldest undone block is not a reliable attribution (whole maps were swapped, every
+// earlier undo step may be affected): the signature then names frame and map only.
+func (in *inst) sigOf(clause, tf string, k, n int, undone func() string) string {
+	if in.span(k+1, n) == "election" {
+		parts := strings.Split(tf, ".")
+		if len(parts) > 2 {
+			parts = parts[:2]
+		}
+		return fmt.Sprintf("C22|%s|field=%s|span=election", clause, strings.Join(parts, "."))
 	}
-	var l []string
-	for c := range cl {
-		l = append(l, c)
-	}
-	sort.Strings(l)
-	return strings.Join(l, ",")
+	return fmt.Sprintf("C22|%s|field=%s|undone=%s|span=-", clause, tf, undone())
 }
 
 // topField turns a key-free field path into the signature component: indices dropped, at most
@@ -555,7 +562,7 @@ func (in *inst) oracle(first bool) (*mc.Fail, []string) {
 					continue
 				}
 				fieldSeen["rb|"+tf] = true
-				add(fmt.Sprintf("C22|rollback-differs|field=%s|undone=%s|span=%s", tf, in.undoneClass(k, n, tf), in.span(k+2, n)),
+				add(in.sigOf("rollback-differs", tf, k, n, func() string { return in.undoneClass(k, n, tf) }),
 					fmt.Sprintf("after %d blocks, RollbackTo(%d) leaves a state different from the one built directly from the first %d blocks: %v", n, k, k, d.Lines))
 			}
 		}
@@ -573,7 +580,7 @@ func (in *inst) oracle(first bool) (*mc.Fail, []string) {
 						continue
 					}
 					fieldSeen["re|"+tf] = true
-					add(fmt.Sprintf("C22|reapply-differs|field=%s|undone=%s|span=%s", tf, in.blockClass(k+1), in.span(k+2, n)),
+					add(in.sigOf("reapply-differs", tf, k, n, func() string { return in.blockClass(k + 1) }),
 						fmt.Sprintf("after %d blocks, RollbackTo(%d) and re-processing blocks %d..%d gives a state different from the uninterrupted one: %v", n, k, k+1, n, d.Lines))
 				}
 			}
